@@ -5,6 +5,7 @@ import (
 	"encoding/json"
 	"fmt"
 	"math"
+	"math/big"
 
 	"github.com/theory/sqljson/path/ast"
 )
@@ -188,17 +189,62 @@ func (exec *Executor) execBinaryMathExpr(
 // the binary math op to left and right. left and right must be an int64, a
 // float64, or a [json.Number]. In the latter case, execMathOp tries to cast
 // values to int64, and falls back on float64.
+// integerMathOverflows reports whether lhs op rhs does not fit in int64.
+func integerMathOverflows(lhs, rhs int64, op ast.BinaryOperator) bool {
+	switch op {
+	case ast.BinaryAdd:
+		sum := lhs + rhs
+		return (sum > lhs) != (rhs > 0)
+	case ast.BinarySub:
+		diff := lhs - rhs
+		return (diff < lhs) != (rhs > 0)
+	case ast.BinaryMul:
+		if lhs == 0 || rhs == 0 {
+			return false
+		}
+		prod := lhs * rhs
+		return prod/rhs != lhs || (lhs == -1 && rhs == math.MinInt64) || (rhs == -1 && lhs == math.MinInt64)
+	case ast.BinaryDiv:
+		return lhs == math.MinInt64 && rhs == -1
+	default:
+		return false
+	}
+}
+
+// integerMath executes lhs op rhs on integers. When the exact result does not
+// fit in int64 it returns the nearest float64 rather than silently wrapping
+// around.
+func integerMath(lhs, rhs int64, op ast.BinaryOperator) (any, error) {
+	if integerMathOverflows(lhs, rhs, op) {
+		// The float64 nearest to the exact result.
+		exact, x, y := new(big.Int), big.NewInt(lhs), big.NewInt(rhs)
+		switch op {
+		case ast.BinaryAdd:
+			exact.Add(x, y)
+		case ast.BinarySub:
+			exact.Sub(x, y)
+		case ast.BinaryMul:
+			exact.Mul(x, y)
+		default:
+			exact.Quo(x, y)
+		}
+		res, _ := new(big.Float).SetInt(exact).Float64()
+		return res, nil
+	}
+	return executeIntegerMath(lhs, rhs, op)
+}
+
 func execMathOp(left, right any, op ast.BinaryOperator) (any, error) {
 	switch left := left.(type) {
 	case int64:
 		switch right := right.(type) {
 		case int64:
-			return executeIntegerMath(left, right, op)
+			return integerMath(left, right, op)
 		case float64:
 			return executeFloatMath(float64(left), right, op)
 		case json.Number:
 			if right, err := right.Int64(); err == nil {
-				return executeIntegerMath(left, right, op)
+				return integerMath(left, right, op)
 			}
 			if right, err := right.Float64(); err == nil {
 				return executeFloatMath(float64(left), right, op)
